@@ -5,7 +5,7 @@ From Coq Require Import List Arith ZArith Bool Sorted.
 Import ListNotations.
 Require Import Base.C11_Unique Model.C11_Topo Proofs.C11_TopoProofs.
 Require Import Model.C04_Dofs Proofs.C04_DofsProofs Gen.C04Gen Dyn.C04Tie.
-Require Import Model.C07_Query Proofs.C07_QueryProofs Proofs.C07_TraceProofs Gen.C07Gen Dyn.C07Tie.
+Require Import Model.C07_Query Proofs.C07_QueryProofs Proofs.C07_TraceProofs Gen.C07Gen Dyn.C07Tie Dyn.C07Wrap.
 
 (* Facet query: flatten() is the strictly sorted list of EXACTLY the numbers that decode (C04) to a component k that is not
    skipped of: a vertex of a selected facet, an edge of a selected facet (3-D, via f2e), or a selected facet. *)
@@ -225,3 +225,46 @@ Example C07_instance :
   complement (D_N D) [1; 2; 6] = [0; 3; 4; 5; 7; 8].
 Proof. vm_compute. repeat split. Qed.
 Print Assumptions C07_instance.
+
+(* ------------------------------------------------------------------ wrappers (pure plumbing), translated from the current source.
+   The definitions gen_* are regenerated by the ast translator of vlib/props/c07.py from Mesh.facets_satisfying / nodes_satisfying /
+   elements_satisfying / with_boundaries / with_subdomains and DofsView.__or__ / __add__; the statements hold for ALL argument values *)
+
+(* option handling of the *_satisfying selectors: the result is the predicate set, cut with the boundary set OF THE SAME ENTITY KIND
+   exactly when boundaries_only is set, and the facet set does not depend on `normal` *)
+Theorem C07_wrap_satisfying_options :
+  (forall pred bfacets bnodes bo ng,
+     gen_facets_satisfying pred bfacets bnodes bo ng = if bo then inter pred bfacets else pred) /\
+  (forall pred bfacets bnodes bo ng x,
+     In x (gen_facets_satisfying pred bfacets bnodes bo ng) <-> In x pred /\ (bo = true -> In x bfacets)) /\
+  (forall pred bfacets bnodes bo,
+     gen_nodes_satisfying pred bfacets bnodes bo = if bo then inter pred bnodes else pred) /\
+  (forall pred bfacets bnodes bo x,
+     In x (gen_nodes_satisfying pred bfacets bnodes bo) <-> In x pred /\ (bo = true -> In x bnodes)) /\
+  (forall pred, gen_elements_satisfying pred = pred).
+Proof.
+  split; [exact wrap_facets_satisfying|]. split; [exact wrap_facets_satisfying_in|]. split; [exact wrap_nodes_satisfying|].
+  split; [exact wrap_nodes_satisfying_in | exact wrap_elements_satisfying].
+Qed.
+Print Assumptions C07_wrap_satisfying_options.
+
+(* the dictionary merge of with_boundaries / with_subdomains is the model's with_tags (new definitions win), one call or any history *)
+Theorem C07_wrap_retagging_merge :
+  (forall old new, gen_with_boundaries old new = with_tags old new /\ gen_with_subdomains old new = with_tags old new) /\
+  (forall old new k,
+     tag_lookup (gen_with_boundaries old new) k = match tag_lookup new k with Some v => Some v | None => tag_lookup old k end /\
+     tag_lookup (gen_with_subdomains old new) k = match tag_lookup new k with Some v => Some v | None => tag_lookup old k end) /\
+  (forall hist, fold_left gen_with_boundaries hist [] = tag_history hist /\ fold_left gen_with_subdomains hist [] = tag_history hist).
+Proof.
+  split; [intros; split; [apply wrap_with_boundaries | apply wrap_with_subdomains]|].
+  split; [exact wrap_with_boundaries_lookup|]. intros; split; [apply wrap_history_boundaries | apply wrap_history_subdomains].
+Qed.
+Print Assumptions C07_wrap_retagging_merge.
+
+(* DofsView.__or__ and __add__ are the model's view_or: per kind the union of the index sets with the rows of the LEFT operand *)
+Theorem C07_wrap_view_union :
+  (forall a b, gen_view_or a b = view_or a b /\ gen_view_add a b = view_or a b) /\
+  (forall a b kd, rows_of (gen_view_add a b) kd = rows_of a kd /\
+                  forall x, In x (ix_of (gen_view_add a b) kd) <-> In x (ix_of a kd) \/ In x (ix_of b kd)).
+Proof. split; [exact wrap_view_or | exact wrap_view_or_spec]. Qed.
+Print Assumptions C07_wrap_view_union.
